@@ -461,6 +461,19 @@ func (c *FnCtx) callFunc(env *Env, fn *types.Func, recv *Val, args []Val, x *ast
 	key := FuncKey(fn)
 	sig := fn.Type().(*types.Signature)
 	ct := c.E.Contracts[key]
+	if key == c.Fn.Key && c.inSpec == 0 {
+		// direct recursion: partial correctness is not enough for "never crashes" (unbounded
+		// recursion is a fatal stack overflow in Go); a measure must decrease
+		if ct == nil || ct.FnDecreases == nil {
+			c.oblige(env.st, "term", "recursion", "false", "recursive call without a decreases measure", false, x)
+		} else {
+			entryEnv := &Env{st: c.entry, spec: true, old: c.entry, spkg: c.Fn.Pkg.Types, lookup: func(n string) (Val, bool) { v, ok := c.paramVals[n]; return v, ok }}
+			d0 := c.eval(entryEnv, ct.FnDecreases.Expr).T
+			cenv := c.calleeEnv(env.st, env.st, fn, ct, recv, args, nil)
+			d1 := c.eval(cenv, ct.FnDecreases.Expr).T
+			c.oblige(env.st, "term", "recursion", and(app("<=", "0", d0), app("<", d1, d0)), ct.FnDecreases.Src, ct.FnDecreases.Try, x)
+		}
+	}
 	if ct != nil && !(ct.Inline && len(ct.Requires) == 0 && len(ct.Ensures) == 0) {
 		c.UsedContracts[key] = true
 		if ct.Inline {
@@ -587,9 +600,16 @@ func (c *FnCtx) inlineCall(env *Env, fn *types.Func, recv *Val, args []Val, x *a
 		fr.returns = append(fr.returns, &retRec{st: st.clone(), vals: vals})
 	}
 	c.frames = c.frames[:len(c.frames)-1]
-	// join the returns
+	// join the returns; the callee's own locals go out of scope first (their types may
+	// mention the callee's type parameters)
+	lo, hi := fi.Decl.Pos(), fi.Decl.End()
 	var states []*State
 	for _, r := range fr.returns {
+		for o := range r.st.vars {
+			if p := o.Pos(); p >= lo && p <= hi {
+				delete(r.st.vars, o)
+			}
+		}
 		states = append(states, r.st)
 	}
 	nres := sig.Results().Len()
